@@ -6,7 +6,9 @@
     loop.  [cfg_ok C] and [esc_ok E] are decidable conditions that the check discharges for today's source
     by computation (instance obligations); everything else is proved for all inputs. *)
 From Coq Require Import List NArith Bool.
-From SV Require Import KV.KvBase KV.KvLex KV.KvParse KV.KvSer KV.KvSym KV.KvParseProofs KV.KvRoundtrip KV.KvStrip.
+From SV Require Import Text.Str Text.Prog Text.Tokenizer.
+From SV Require Import KV.KvBase KV.KvLex KV.KvParse KV.KvSer KV.KvSym KV.KvParseProofs KV.KvRoundtrip KV.KvStrip
+  KV.KvRefine KV.KvDelivery.
 Import ListNotations.
 Open Scope N_scope.
 
@@ -135,3 +137,39 @@ Theorem kv_roundtrip_linebreak_value_refuted :
     (serialise_doc (ref_sercfg (PEsc FName)) ref_escfg default_opts [Leaf [97] [98; 13]])
   = PErr ENewlineValue.
 Proof. exact linebreak_value_refuted. Qed.
+
+(** * Delivery of the text: str, list of arbitrary chunks, file object (an iterable of chunks)
+
+    [tokens_flat T kv_topts] / [tokens_chk T kv_topts] are the reader-program model of [Tokenizer] built for C03
+    (Text/Tokenizer.v: [_get_token] etc. over [_next_char] and the push-back [_char_index -= 1]), with the options
+    Keyvalues.parse passes; [tables_match T E] (decidable, discharged for the regenerated tables) says that its
+    constant tables agree with those of the KV lexer model. *)
+
+(** The hand-written KV lexer computes exactly the tokens, and the error, of the C03 tokenizer model. *)
+Theorem kv_lexer_refines_tokenizer : forall T E, tables_match T E = true -> forall l,
+  conv_trace (tokens_flat T kv_topts (length l + 2) (length l + 2) 1 false l) = lex_all E l.
+Proof. exact lexer_refines. Qed.
+
+(** parse of a list of chunks = parse of the concatenation: for every cut (inside CR LF, an escape pair, a comment,
+    before a pushed-back delimiter), empty chunks included, every option vector and flag table. *)
+Theorem parse_any_delivery : forall T E, tables_match T E = true ->
+  forall P O flag_on cs n f, (length (concat cs) < n)%nat -> (length (concat cs) < f)%nat ->
+  parse_kv_reader P O T flag_on n f (chk_of_chunks cs) = parse_kv_opts P O E flag_on (concat cs).
+Proof. exact parse_any_delivery_chunks. Qed.
+
+(** ... and the same from any reader state that denotes the text (e.g. Tokenizer(str): one chunk). *)
+Theorem parse_any_delivery_reader_state : forall T E, tables_match T E = true ->
+  forall P O flag_on l s n f, R l s -> (length l < n)%nat -> (length l < f)%nat ->
+  parse_kv_reader P O T flag_on n f s = parse_kv_opts P O E flag_on l.
+Proof. exact parse_any_reader_state. Qed.
+
+(** The whole property for chunked delivery: however the serialised text is cut, the tree comes back. *)
+Theorem kv_roundtrip_any_delivery : forall C E P T, cfg_ok C = true -> esc_ok E = true -> pcfg_ok P = true ->
+  tables_match T E = true ->
+  forall flag_on o d cs n f, ws_opts o = true -> doc_names_ok d = true ->
+  concat cs = serialise_doc C E o d -> (length (concat cs) < n)%nat -> (length (concat cs) < f)%nat ->
+  parse_kv_reader P default_popts T flag_on n f (chk_of_chunks cs) = POk d.
+Proof. exact roundtrip_any_delivery. Qed.
+
+Theorem kv_delivery_hypotheses_satisfiable : tables_match ref_tables ref_escfg' = true.
+Proof. exact ref_tables_match. Qed.
